@@ -639,7 +639,7 @@ fn compare_outcomes(m: &mut Merged, tmp: &Path, runs: u64, chunk: u64) {
                                         } else if l.contains(" Panic(") {
                                             "Panic".into()
                                         } else {
-                                            l.split("Err(\"").nth(1).and_then(|r| r.split('#').next()).unwrap_or("Err").to_string()
+                                            l.split("Err(\"").nth(1).and_then(|r| r.split(|c| c == '#' || c == '"').next()).unwrap_or("Err").to_string()
                                         }
                                     }
                                 }
@@ -766,7 +766,7 @@ fn replay_c19(bins: &Bins, file: &Path, tmp: &Path) -> ReplayOutcome {
                             } else if l.contains(" Panic(") {
                                 "Panic".into()
                             } else {
-                                l.split("Err(\"").nth(1).and_then(|r| r.split('#').next()).unwrap_or("Err").to_string()
+                                l.split("Err(\"").nth(1).and_then(|r| r.split(|c| c == '#' || c == '"').next()).unwrap_or("Err").to_string()
                             }
                         }
                     }
